@@ -12,7 +12,7 @@ chains, reorganisations of any depth, invalid blocks; `flushReq` /
 connecting) is C03's guarantee, an explicit hypothesis.
 Pruning is not part of the model (see meta/C04.json).
 -/
-import BV.C04.Lemmas7
+import BV.C04.Lemmas8
 import BV.Generated.C04
 namespace BV.C04
 
@@ -54,6 +54,22 @@ theorem acked_indexed (A : UtxoAlg) (hA : A.Lawful) (cfg : Cfg) (hp : cfg.prune 
     (k : Nat) (hk : (deliver cfg (runOps cfg nd0 ops1) b p).1.log.length ≤ k) :
     (b :: p) ∈ rowKeys ((runOps cfg (deliver cfg (runOps cfg nd0 ops1) b p).1 ops2).log.take k) :=
   acked_indexed_aux hA cfg hp ops1 ops2 nd0 h0 b p hack k hk
+
+/-- The block-store / index split, precisely: `maybeAcceptBlock` commits the raw
+block (`dbStoreBlock`) and its index row (`flushToDB`) in two transactions.  In
+ANY image that satisfies the invariant (by `prefix_invariant`: any crash image)
+in which block `b :: p` has no index row — in particular the image right after
+its `dbStoreBlock` commit — while its parent has one and is not known invalid,
+the reopened node does not refuse a re-delivery of the block as duplicate or
+orphan: it processes it and commits its index row.  (A row-less stored block
+that could not be delivered again would be stranded forever.) -/
+theorem redeliverable (A : UtxoAlg) (hA : A.Lawful) (cfg : Cfg) (hp : cfg.prune = none) (img : Image A)
+    (hi : Inv img) (rn : Node A) (r : recover cfg img = .ok rn) (b : Blk) (p : Chain)
+    (hn : (b :: p) ∉ keys img.rows) (hpr : p ∈ keys img.rows)
+    (hv : ¬ (statusOf rn.index p).knownInvalid = true) :
+    ((deliver cfg rn b p).2 ≠ .dup ∧ (deliver cfg rn b p).2 ≠ .orphan) ∧
+    (b :: p) ∈ keys (deliver cfg rn b p).1.img.rows ∧ (b :: p) ∈ keys (deliver cfg rn b p).1.index :=
+  redeliverable_aux hA cfg hp hi r b p hn hpr hv
 
 /-- Crash during recovery: every image at a commit boundary of the recovery's own
 log satisfies the invariant again, and reopening it yields the same tip with
